@@ -97,6 +97,16 @@ func c13Build(seed int64) *ir.Module {
 			a.Metadata = append(a.Metadata, &metadata.Attachment{Name: "tag", Node: md1})
 			last = a
 		}
+		// integer widths that differ by multiples of 64 (and odd ones): whatever is
+		// keyed by a width must keep them apart under concurrency
+		z64 := entry.NewZExt(last, types.I64)
+		z128 := entry.NewZExt(z64, types.I128)
+		z256 := entry.NewSExt(z128, types.NewInt(256))
+		t72 := entry.NewTrunc(z256, types.NewInt(72))
+		t8 := entry.NewTrunc(t72, types.I8)
+		z65 := entry.NewZExt(t8, types.NewInt(65))
+		t1 := entry.NewTrunc(z65, types.I1)
+		last = entry.NewSelect(t1, last, f.Params[1])
 		ld := entry.NewLoad(i32, g0)
 		// an alloca whose address space is set after construction (the only way
 		// the API offers): its cached pointer type is recomputed on first use
